@@ -107,6 +107,35 @@ def _o2(ctx, fi):
     helpers = [f for f in m.funcs.values() if f.parent is fi]
     scopes = [fi] + helpers
     finds = [(f, c) for f in scopes for c in f.calls() if call_name(c) in ("findall", "search", "match", "finditer", "fullmatch") and isinstance(c.func, ast.Attribute) and norm(c.func.value) == "re"]
+    if len(finds) != 1:
+        # a combined pattern: names joined with "|" -- decided by evaluating the pattern template on two sample names, one a prefix of
+        # the other, with CPython's regex parser: the word boundaries must bind every alternative (i.e. the alternation is grouped)
+        joins = [c for f in scopes for c in f.calls("join") if isinstance(c.func.value, ast.Constant) and c.func.value.value == "|"]
+        if joins:
+            import re._parser as rp
+            pm = parent_map(fi.node)
+            top = joins[0]
+            while isinstance(pm.get(id(top)), ast.BinOp) and isinstance(pm[id(top)].op, ast.Add):
+                top = pm[id(top)]
+            parts = []
+
+            def flat(e):
+                if isinstance(e, ast.BinOp) and isinstance(e.op, ast.Add):
+                    flat(e.left); flat(e.right)
+                else:
+                    parts.append(e)
+            flat(top)
+            ctx.require(all(isinstance(p_, ast.Constant) or p_ is joins[0] for p_ in parts), R, f"pattern template `{norm(top)[:80]}`")
+            sample = "".join(p_.value if isinstance(p_, ast.Constant) else "v1|v11" for p_ in parts)
+            tree = rp.parse(sample)
+            # grouped: the top level is a sequence (boundary, group, boundary); ungrouped: the top level is one BRANCH
+            top_is_branch = len(tree.data) == 1 and str(tree.data[0][0]) == "BRANCH"
+            bounded = sample.startswith("\\b") and sample.endswith("\\b")
+            ctx.check(bounded and not top_is_branch, R, fi, top, f"the combined pattern `{norm(top)[:90]}` evaluates to `{sample}` for the names v1, v11: the alternation is not grouped, so only the first alternative keeps its left and only the "
+                      "last its right word boundary -- a reference to `v11` is recorded as a dependency on `v1` (or lost), and fields are evaluated in the wrong order", "alternation grouped inside the word boundaries")
+            esc = "re.escape(" in norm(joins[0])
+            ctx.check(esc, R, fi, joins[0], "names are joined into the pattern without re.escape", "names escaped")
+            return
     ctx.require(len(finds) == 1, R, f"{fi.fq}: dependency regex call not found ({len(finds)})")
     rf, c = finds[0]
     ctx.check(_regex_whole_word(c.args[0]), R, rf, c, f"the dependency pattern `{norm(c.args[0])}` is not \\b + re.escape(name) + \\b: a field named `a` would depend on every expression containing "
